@@ -76,6 +76,77 @@ theorem C16_lossy_window_decision {α : Type} (E : Option α → Option α → B
         · exact ⟨.update, by rw [h']; rfl⟩
         · exact ⟨.replace, by rw [h']; rfl⟩
 
+/-- With `WithInclude` on the lossy path: include is applied to the merged change, i.e. to the value stored
+when the window began and the value stored when it ended — never to a value that was merged away.  For every
+E, filter, include predicate and non-empty chain the subscriber is sent exactly what the loop makes of ONE
+change `s → e`: nothing if both are outside the filter (or absent), an ADD / REMOVE if the window crosses the
+boundary, else the change, iff its filtered values are not E-equivalent. -/
+theorem C16_lossy_window_include {α : Type} (E : Option α → Option α → Bool) (flt : α → α) (inc : α → Bool)
+    (i : String) (s e : Option α) (evs : List (Chg α)) (hc : IdChain i s evs e) (hne : evs ≠ []) :
+    (s = none → e = none → (mergeFold none evs).bind (lossyStepI (some E) flt (some inc)) = none) ∧
+    (¬ (s = none ∧ e = none) → ∃ ct,
+      (mergeFold none evs).bind (lossyStepI (some E) flt (some inc)) =
+        lossyStepI (some E) flt (some inc) ⟨i, ct, s, e⟩) := by
+  have h := C16_merge_window i s e evs hc hne
+  constructor
+  · intro hs he; rw [h.1 hs he]; rfl
+  · intro hn
+    cases s with
+    | none =>
+      cases e with
+      | none => exact absurd ⟨rfl, rfl⟩ hn
+      | some v => exact ⟨.add, by rw [h.2.1 v rfl rfl]; rfl⟩
+    | some u =>
+      cases e with
+      | none => exact ⟨.remove, by rw [h.2.2.1 u rfl rfl]; rfl⟩
+      | some v =>
+        rcases h.2.2.2 u v rfl rfl with h' | h'
+        · exact ⟨.update, by rw [h']; rfl⟩
+        · exact ⟨.replace, by rw [h']; rfl⟩
+
+/-- What the loop makes of one change `s → e` under an include predicate, spelled out (E never equates an
+absent value with a present one, as every `cmp.Equal(...)` — `C16_equal_absent_never_equivalent`). -/
+theorem C16_lossy_include_cases {α : Type} (E : Option α → Option α → Bool) (flt : α → α) (inc : α → Bool)
+    (i : String) (ct : CT) (u v : α) (hnil : ∀ w, E none (some w) = false ∧ E (some w) none = false) :
+    (inc u = false → inc v = false → lossyStepI (some E) flt (some inc) ⟨i, ct, some u, some v⟩ = none) ∧
+    (inc u = false → inc v = true →
+      lossyStepI (some E) flt (some inc) ⟨i, ct, some u, some v⟩ = some (⟨i, .add, none, some (flt v)⟩, true)) ∧
+    (inc u = true → inc v = false →
+      lossyStepI (some E) flt (some inc) ⟨i, ct, some u, some v⟩ = some (⟨i, .remove, some (flt u), none⟩, true)) ∧
+    (inc u = true → inc v = true →
+      lossyStepI (some E) flt (some inc) ⟨i, ct, some u, some v⟩ =
+        some (⟨i, ct, some (flt u), some (flt v)⟩, !E (some (flt u)) (some (flt v)))) := by
+  refine ⟨?_, ?_, ?_, ?_⟩ <;> intro hu hv <;>
+    simp [lossyStepI, includeChg, lossyStep, hu, hv, (hnil (flt v)).1, (hnil (flt u)).2]
+
+/-- The subscriber keeps track through lossy windows.  PARTIAL in the same sense as
+`C16_no_dup_delivery_collection_partial` (E reflexive and transitive, as `Equal()` / `WithNoDuplicates` is; a
+tolerance is not transitive and drifts — the recorded finding): if the subscriber's copy of item `i` is
+E-equivalent to the value stored when a window begins, then after the window — whatever was merged away,
+whether or not anything was delivered — its copy is E-equivalent to the value stored when the window ends. -/
+theorem C16_lossy_window_tracks {α : Type} (E : Option α → Option α → Bool) (flt : α → α)
+    (hrefl : ∀ a, E a a = true) (htrans : ∀ a b c, E a b = true → E b c = true → E a c = true)
+    (i : String) (s e : Option α) (evs : List (Chg α)) (hc : IdChain i s evs e) (hne : evs ≠ [])
+    (held : Option α) (hheld : E held (s.map flt) = true) :
+    E (viewAfter E flt held evs) (e.map flt) = true := by
+  have h := C16_lossy_window_decision E flt i s e evs hc hne
+  unfold viewAfter
+  by_cases hn : s = none ∧ e = none
+  · rw [h.1 hn.1 hn.2]
+    obtain ⟨hs, he⟩ := hn
+    subst hs he
+    simpa using hheld
+  · obtain ⟨ct, hr⟩ := h.2 hn
+    rw [hr]
+    cases hd : E (s.map flt) (e.map flt) with
+    | true => simp only [Bool.not_true]; exact htrans _ _ _ hheld hd
+    | false => simp only [Bool.not_false]; exact hrefl _
+
+/-- The hypotheses are satisfiable: plain equality of the payload. -/
+example : ∃ E : Option Nat → Option Nat → Bool, (∀ a, E a a = true) ∧
+    (∀ a b c, E a b = true → E b c = true → E a c = true) :=
+  ⟨fun a b => a == b, by simp, by intro a b c; simp; intro h1 h2; rw [h1, h2]⟩
+
 /-- Non-vacuity: a chain with a delete+add cycle and a later update — the shape that reaches the REPLACE
 arm of `mergeChanges` — exists, and its merged change carries the FIRST old value. -/
 example : IdChain "k" (some 10) [⟨"k", .remove, some 10, none⟩, ⟨"k", .add, none, some 50⟩,
